@@ -6,6 +6,7 @@ GW_EVENTS = ["message_approved", "message_executed", "signers_rotated", "contrac
 ITS_EVENTS = ["contract_called", "gas_paid", "delivery_executed", "transfer_received", "token_executed",
               "trusted_chain_set", "trusted_chain_removed", "token_id_claimed", "ownership_transferred"]
 
+GW_IND = {"kind": "apalache", "tiers": ["thorough"], "module": "GatewayInd", "inv": "IndInv", "refute": "NotInvariant", "refute_init": "RefuteInit"}
 GW_TRACE = {"kind": "trace", "spec": "TraceGateway", "module": "Gateway", "quick": (8, 250), "thorough": (64, 600)}
 
 TOKEN_TRACE = {"kind": "trace", "spec": "TraceToken", "module": "Token", "quick": (8, 300), "thorough": (64, 800)}
@@ -221,8 +222,10 @@ PROPS = {
             {"kind": "graph", "spec": "MC_C02", "cfg": "MC_C02_deep", "tiers": ["thorough"], "module": "Gateway", "evkinds": GW_EVENTS,
              "need": ["ApproveMessages/ok", "ValidateMessage/ok"]},
             GW_TRACE,
+            # unbounded epochs / clock / configuration, on the design (Apalache inductive invariant)
+            GW_IND,
         ],
-        "level_text": "TLC proves the status-monotonicity / exactly-once invariants on every reachable state of a finite instance (all interleavings, no depth bound) and every one of its transitions is executed against the real gateway with the specification's post-state as oracle.",
+        "level_text": "TLC proves the status-monotonicity / exactly-once invariants on every reachable state of a finite instance (all interleavings, no depth bound) and every one of its transitions is executed against the real gateway with the specification's post-state as oracle. Thorough additionally discharges, with Apalache, an inductive invariant of the gateway design over unbounded epochs, clock values, retention and delay settings (spec/apalache/GatewayInd.tla).",
         "rule": "cases = transitions (pre-state, action) of the bounded TLC instance replayed against the contracts; "
                 "distinct = distinct (abstract pre-state, action) pairs; every one changes or probes message status",
         "assumptions": ["soroban-env-host test mode implements on-chain semantics (rollback, require_auth, crypto)",
@@ -243,8 +246,10 @@ PROPS = {
                       "RotateSigners/latest_or_bypass", "Construct/ok", "Construct/wellformed", "Construct/duplicate"],
              "control": sibling_control(["proof", "bypass", "auth"], "new")},
             GW_TRACE,
+            # unbounded epochs / clock / configuration, on the design (Apalache inductive invariant)
+            GW_IND,
         ],
-        "level_text": "TLC proves epoch +1 / inverse lookups / well-formed-and-fresh / frame on every reachable state of the bounded instance; every transition (13 candidate shapes x proof kinds x bypass x operator auth over all histories of <= 4 rotations, and 20 constructor lists) is executed against the real gateway and epoch(), signers_hash_by_epoch(0..epoch+1), epoch_by_signers_hash(every catalogue hash) are compared.",
+        "level_text": "TLC proves epoch +1 / inverse lookups / well-formed-and-fresh / frame on every reachable state of the bounded instance; every transition (13 candidate shapes x proof kinds x bypass x operator auth over all histories of <= 4 rotations, and 20 constructor lists) is executed against the real gateway and epoch(), signers_hash_by_epoch(0..epoch+1), epoch_by_signers_hash(every catalogue hash) are compared. Thorough additionally discharges, with Apalache, an inductive invariant of the gateway design over unbounded epochs, clock values, retention and delay settings (spec/apalache/GatewayInd.tla).",
         "rule": "cases = transitions of the bounded TLC instance replayed against the contracts; distinct = distinct (abstract pre-state, action) pairs; each is a rotation or construction attempt",
         "assumptions": ["soroban-env-host test mode implements on-chain semantics", "u128 weights on a lattice: abstract w -> w*(2^128-1)/15, so overflow and threshold comparisons coincide exactly",
                         "bounds: 13 candidate sets, <= 5 epochs, retention 1, delay 0"],
@@ -280,8 +285,8 @@ PROPS = {
             {"kind": "graph", "spec": "MC_C08", "cfg": "MC_C08_%s" % r, "tiers": ["thorough"], "module": "Gateway", "evkinds": GW_EVENTS,
              "need": ["ApproveMessages/ok", "ApproveMessages/retention", "RotateSigners/retention"], "control": latest_proof_control}
             for r in ["deep1", "deep3"]
-        ] + [GW_TRACE],
-        "level_text": "TLC proves honoured <=> epoch distance <= retention for approvals, proof checks and bypass rotations and 'plain rotation only by the newest set' on every reachable state; the instance keeps the route (1..3 initial sets, plain/bypass per epoch) in its state, so a proof from every installed epoch is replayed against the real gateway after every history of <= 6 epochs, for retention 0, 1, 2 and 9.",
+        ] + [GW_TRACE, GW_IND],
+        "level_text": "TLC proves honoured <=> epoch distance <= retention for approvals, proof checks and bypass rotations and 'plain rotation only by the newest set' on every reachable state; the instance keeps the route (1..3 initial sets, plain/bypass per epoch) in its state, so a proof from every installed epoch is replayed against the real gateway after every history of <= 6 epochs, for retention 0, 1, 2 and 9. Thorough additionally discharges, with Apalache, an inductive invariant of the gateway design over unbounded epochs, clock values, retention and delay settings (spec/apalache/GatewayInd.tla).",
         "rule": "cases = transitions of the bounded TLC instances (one per retention setting) replayed against the contracts; distinct = distinct (route, action) pairs, each a proof from one installed epoch through one entry point",
         "assumptions": ["soroban-env-host test mode implements on-chain semantics", "bounds: <= 6 epochs, retention in {0,1,2,9}, 1..3 initial sets"],
     },
@@ -298,8 +303,8 @@ PROPS = {
         ] + [
             {"kind": "graph", "spec": "MC_C09", "cfg": "MC_C09_d30", "tiers": ["thorough"], "module": "Gateway", "evkinds": GW_EVENTS,
              "need": ["RotateSigners/ok", "RotateSigners/delay"], "control": wait_longer_control},
-        ] + [GW_TRACE],
-        "level_text": "TLC proves the delay limit, its completeness at the boundary, the clock rule (restart on every success incl. bypass, untouched on failure) and operator-only bypass on every reachable state; every transition (time steps of 1, D-1, D, D+1 interleaved with plain/bypass rotations that succeed or fail) is replayed against the real gateway with the ledger timestamp set by the harness.  The rotation clock is not observable; it is decided by the accept/reject outcome of every later rotation in the graph.",
+        ] + [GW_TRACE, GW_IND],
+        "level_text": "TLC proves the delay limit, its completeness at the boundary, the clock rule (restart on every success incl. bypass, untouched on failure) and operator-only bypass on every reachable state; every transition (time steps of 1, D-1, D, D+1 interleaved with plain/bypass rotations that succeed or fail) is replayed against the real gateway with the ledger timestamp set by the harness.  The rotation clock is not observable; it is decided by the accept/reject outcome of every later rotation in the graph. Thorough additionally discharges, with Apalache, an inductive invariant of the gateway design over unbounded epochs, clock values, retention and delay settings (spec/apalache/GatewayInd.tla).",
         "rule": "cases = transitions of the bounded TLC instances (one per minimum delay) replayed against the contracts; distinct = distinct (abstract pre-state incl. now and last rotation time, action) pairs",
         "assumptions": ["soroban-env-host test mode implements on-chain semantics", "bounds: <= 4 epochs, delay in {0,1,10,10*2^40 s}, time horizon 2*delay+3"],
     },
